@@ -17,6 +17,19 @@ CLAIMED = {
               "function bodies are hand-modelled, tied by correspondence only."),
         technique="Lean 4 proof (ring/field_simp/linarith over ordered fields) + Fraction/Rat and Float-bit correspondence",
         ref="DESIGN.md §4 C11"),
+    "C09": dict(
+        text=("Lean 4 theorems (any scalar type, any input, by induction over the generic table-driven walk): absolute() "
+              "leaves no lowercase command, explicit_lines() no H/V, expand_shorthand() no S/T; generated command tables "
+              "checked (arity/coordinate indices in range). Model of all ten rewrites and the seven shapes tied to the code "
+              "by d-string equality over letter-exhaustive and random command sequences; the curve-preservation laws are "
+              "evaluated on the implementation with the Lean path interpreter Spec.interp (SVG 8.3) as judge. Semantic "
+              "preservation theorems (interp (f p) = interp p) are not yet proved in Lean: that half is currently carried "
+              "by the Spec-judged search only."),
+        note=("Trusted: Lean kernel; propext/Classical.choice/Quot.sound; Spec/PathInterp.lean, Spec/Shapes.lean; translator; "
+              "harness; F64 ntos/round bridge. One recorded finding (smooth shorthand directly after an arc in "
+              "SVGPath.arcs_to_cubics) and two repaired defects, see known_findings.json."),
+        technique="Lean 4 proof (induction over the walk) + d-string correspondence + Spec.interp-judged search",
+        ref="DESIGN.md §4 C09"),
 }
 
 def main():
